@@ -259,7 +259,7 @@ def zipf_idx(rng, n, k):
 
 def gen_frame(rng, thorough=False, max_rows=400):
     u = rng.random()
-    n = rng.randint(30, 60) if u < 0.5 else (rng.randint(61, 200) if u < 0.85 else rng.randint(201, max_rows))
+    n = rng.randint(30, 60) if u < 0.5 else (rng.randint(61, 200) if u < 0.85 else rng.randint(min(201, max_rows), max_rows))
     n = min(n, max_rows)
     ncols = rng.randint(2, 8)
     lpos = rng.randrange(ncols)
